@@ -88,14 +88,22 @@ func hexCase(c *fw.Ctx) {
 	kind := "valid"
 	switch r.Intn(10) {
 	case 0: // corrupt: a non-hex, non-space character outside any comment
-		runes := []rune(text)
-		pos := r.Intn(len(runes) + 1)
-		bad := []rune{'g', 'x', 'Z', '-', ':', '#', '/', 'é', '.', ','}[r.Intn(10)]
-		// make sure it is outside a comment: put it at the start of a line
-		for pos > 0 && runes[pos-1] != '\n' {
-			pos--
+		if r.Bool() {
+			// anywhere outside a comment (also between / instead of the digits of a byte), any character of Unicode
+			text = corruptOutsideComment(r, text)
+		} else {
+			runes := []rune(text)
+			pos := r.Intn(len(runes) + 1)
+			bad := []rune{'g', 'x', 'Z', '-', ':', '#', '/', 'é', '.', ','}[r.Intn(10)]
+			if r.Bool() {
+				bad = badRune(r)
+			}
+			// make sure it is outside a comment: put it at the start of a line
+			for pos > 0 && runes[pos-1] != '\n' {
+				pos--
+			}
+			text = string(runes[:pos]) + string(bad) + string(runes[pos:])
 		}
-		text = string(runes[:pos]) + string(bad) + string(runes[pos:])
 		kind = "corrupt-char"
 	case 1: // odd number of digits on one line
 		text = text + "\n a"
@@ -146,6 +154,7 @@ func hexEval(c *fw.Ctx, b []byte, text, kind string) {
 	}
 	c.Model("hex", "T hex "+hexs([]byte(text)), impl)
 	outcome := kind + "/" + strings.SplitN(impl, " ", 2)[0]
+	hexRefOracle(c, text, got, err)
 	switch {
 	case err != nil && strings.HasPrefix(err.Error(), "PANIC"):
 		c.Violate(fw.Violation{Stream: "hex", Signature: "hex/panic", What: "ParseAnnotatedHex panicked", Input: text, Got: err.Error()})
@@ -227,6 +236,11 @@ func refDump(data []byte, parent []int, indent int, expand, strs map[string]bool
 	for len(data) > 0 {
 		num, typ, n := protowire.ConsumeTag(data)
 		if n < 0 {
+			return false
+		}
+		if num > protowire.MaxValidNumber {
+			// protowire.ConsumeTag lets field numbers up to 2^31-1 through; the wire format ends at 2^29-1, so
+			// this input is malformed (the implementation and the model report "invalid tag value")
 			return false
 		}
 		data = data[n:]
@@ -354,34 +368,88 @@ func dumpCase(c *fw.Ctx, d *dumper) {
 		data = r.Bytes(r.Intn(16))
 		kind = "junk"
 	}
+	dumpRun(c, d, "dump", kind, data, dm, dumpOpt{2, 3, 1, 2, false})
+}
+
+// dumpRun chooses the -expand / -strings path sets for a generated message (each nested path with
+// probability expNum/expDen, each printable path with 1/2, plus decoys), runs protodump and compares
+// with the model and with the reference rendering.
+type dumpOpt struct {
+	expNum, expDen int  // probability with which a nested-message path is requested for expansion
+	strNum, strDen int  // probability with which a printable field's path is requested as a string
+	plain          bool // no decoys, no expansion of fields that hold no message
+}
+
+func dumpRun(c *fw.Ctx, d *dumper, stream, kind string, data []byte, dm *dumpMsg, opt dumpOpt) {
+	r := c.Rng
+	expNum, expDen := opt.expNum, opt.expDen
 	// choose path sets: subsets of the true nested/string paths, plus decoys
 	expand, strs := map[string]bool{}, map[string]bool{}
 	var expandList, strList []string
 	for _, p := range dm.paths {
-		if r.Chance(2, 3) {
+		if r.Chance(expNum, expDen) && !expand[pathStr(p)] {
 			expand[pathStr(p)] = true
 			expandList = append(expandList, pathStr(p))
 		}
 	}
 	for _, p := range dm.strs {
-		if r.Chance(1, 2) {
+		if r.Chance(opt.strNum, opt.strDen) && !strs[pathStr(p)] {
 			strs[pathStr(p)] = true
 			strList = append(strList, pathStr(p))
 		}
 	}
-	if r.Chance(1, 5) && len(dm.all) > 0 { // expand something that is not a message
+	if !opt.plain && r.Chance(1, 5) && len(dm.all) > 0 { // expand something that is not a message
 		p := dm.all[r.Intn(len(dm.all))]
 		if !strs[pathStr(p)] {
 			expand[pathStr(p)] = true
 			expandList = append(expandList, pathStr(p))
 		}
 	}
-	if r.Chance(1, 4) { // decoys: paths that do not occur, a prefix, the wildcard-looking 0
+	if !opt.plain && r.Chance(1, 4) { // decoys: paths that do not occur, a prefix, the wildcard-looking 0
 		for _, dcy := range []string{"9.9", "0", "1", "2.0"} {
 			if r.Bool() && !expand[dcy] && !strs[dcy] {
 				expandList = append(expandList, dcy)
 				expand[dcy] = true
 			}
+		}
+	}
+	leaf := map[string]bool{} // length-delimited fields that hold no message
+	for _, p := range dm.all {
+		leaf[pathStr(p)] = true
+	}
+	for _, p := range dm.paths {
+		delete(leaf, pathStr(p))
+	}
+	if !opt.plain && r.Chance(1, 3) && len(dm.all) > 0 {
+		// decoys that are easily confused with a path that does occur (a prefix, an extension, a neighbouring
+		// tag, the same digits split differently, ...), requested for expansion or as strings
+		for i := 1 + r.Intn(3); i > 0; i-- {
+			for _, q := range confusablePaths(r, dm.all[r.Intn(len(dm.all))]) {
+				if !r.Chance(1, 3) {
+					continue
+				}
+				if r.Bool() {
+					// (expanding a field that holds no message mostly ends the dump with an error; that has its own case above)
+					if !expand[pathStr(q)] && !leaf[pathStr(q)] {
+						expand[pathStr(q)] = true
+						expandList = append(expandList, pathStr(q))
+					}
+				} else if !strs[pathStr(q)] {
+					strs[pathStr(q)] = true
+					strList = append(strList, pathStr(q))
+				}
+			}
+		}
+	}
+	if r.Chance(1, 4) { // the order in which the paths are given does not matter
+		r2 := r
+		for i := len(expandList) - 1; i > 0; i-- {
+			j := r2.Intn(i + 1)
+			expandList[i], expandList[j] = expandList[j], expandList[i]
+		}
+		for i := len(strList) - 1; i > 0; i-- {
+			j := r2.Intn(i + 1)
+			strList[i], strList[j] = strList[j], strList[i]
 		}
 	}
 	// render the flag values in one of the accepted spellings
@@ -414,28 +482,79 @@ func dumpCase(c *fw.Ctx, d *dumper) {
 		// an empty regular file on stdin is refused by the command line front end ("No data
 		// provided"); that acceptance test is not part of the dump model
 		if ok {
-			c.Violate(fw.Violation{Stream: "dump", Signature: "dump/empty-stdin-accepted", What: "empty regular file on stdin was not refused", Input: desc})
+			c.Violate(fw.Violation{Stream: stream, Signature: "dump/empty-stdin-accepted", What: "empty regular file on stdin was not refused", Input: desc})
 		}
-		c.Count("dump", desc, "empty-stdin-refused", 0, false)
+		c.Count(stream, desc, "empty-stdin-refused", 0, false)
 		return
 	}
-	c.Model("dump", fmt.Sprintf("T dump %s %s %s", flagArg(ef), flagArg(sf), hexs(data)), st+" "+hexs(stdout))
+	c.Model(stream, fmt.Sprintf("T dump %s %s %s", flagArg(ef), flagArg(sf), hexs(data)), st+" "+hexs(stdout))
 	var ref bytes.Buffer
 	refOK := refDump(data, nil, 0, expand, strs, &ref)
 	outcome := kind + "/" + st
 	switch {
 	case st == "panic":
-		c.Violate(fw.Violation{Stream: "dump", Signature: "dump/crash", What: "protodump crashed instead of reporting an error", Input: desc, Got: trunc(stderr, 400)})
+		c.Violate(fw.Violation{Stream: stream, Signature: "dump/crash", What: "protodump crashed instead of reporting an error", Input: desc, Got: trunc(stderr, 400)})
 	case refOK && (!ok || !bytes.Equal(stdout, ref.Bytes())):
-		c.Violate(fw.Violation{Stream: "dump", Signature: "dump/output/" + via, What: "protodump output differs from the reference rendering of a well-formed message", Input: desc,
-			Expected: trunc(ref.String(), 600), Got: trunc(string(stdout)+" | stderr: "+stderr, 600)})
+		where, expWin, gotWin := firstDiffLines(ref.String(), string(stdout))
+		c.Violate(fw.Violation{Stream: stream, Signature: "dump/output/" + via, What: "protodump output differs from the reference rendering of a well-formed message",
+			Input: map[string]interface{}{"case": trunc(desc, 200), "via": via, "expand_flags": ef, "strings_flags": sf, "data": trunc(hexs(data), 6000),
+				"first_difference": where, "exit_ok": ok, "stderr": trunc(stderr, 300)},
+			Expected: expWin, Got: gotWin})
 	case !refOK && ok && kind != "valid":
 		// the reference rejects (e.g. group wire types / overflowing varints) what csproto's decoder may accept: only a crash would be a violation
 	}
-	c.Count("dump", desc, outcome, len(data), len(dm.paths) > 0 || len(dm.strs) > 0)
+	c.Count(stream, desc, outcome, len(data), len(dm.paths) > 0 || len(dm.strs) > 0)
 	if r.Intn(60) == 0 {
 		c.Sample(map[string]interface{}{"stream": "dump", "case": trunc(desc, 200), "stdout": trunc(string(stdout), 200)})
 	}
+}
+
+// firstDiffLines locates the first output line on which the two renderings differ and returns a window
+// of both around it (the entries before it are the enclosing / preceding fields).
+func firstDiffLines(want, got string) (where, wantWin, gotWin string) {
+	wl, gl := strings.SplitAfter(want, "\n"), strings.SplitAfter(got, "\n")
+	i := 0
+	for i < len(wl) && i < len(gl) && wl[i] == gl[i] {
+		i++
+	}
+	line := func(ls []string, k int) string {
+		if k < len(ls) && ls[k] != "" {
+			return trunc(strings.TrimRight(ls[k], "\n"), 120)
+		}
+		return "<end of output>"
+	}
+	where = fmt.Sprintf("output line %d: expected %q, got %q", i+1, line(wl, i), line(gl, i))
+	win := func(ls []string) string {
+		var sb strings.Builder
+		// the headers of the enclosing fields (less indented "tag:" lines before line i), then the neighbourhood
+		indent := func(s string) int { return len(s) - len(strings.TrimLeft(s, " ")) }
+		cur := 1 << 30
+		if i < len(ls) {
+			cur = indent(ls[i])
+		} else if len(ls) > 0 {
+			cur = indent(ls[len(ls)-1])
+		}
+		var encl []string
+		for k := i - 1; k >= 0 && k < len(ls); k-- {
+			if strings.HasPrefix(strings.TrimLeft(ls[k], " "), "tag:") && indent(ls[k]) < cur {
+				cur = indent(ls[k])
+				encl = append([]string{trunc(strings.TrimRight(ls[k], "\n"), 100) + "\n"}, encl...)
+			}
+		}
+		if len(encl) > 0 {
+			sb.WriteString("(enclosing fields)\n" + strings.Join(encl, "") + "(around the difference)\n")
+		}
+		for k := i - 3; k < i+6; k++ {
+			if k >= 0 && k < len(ls) && ls[k] != "" {
+				sb.WriteString(trunc(strings.TrimRight(ls[k], "\n"), 160) + "\n")
+			}
+		}
+		if i >= len(ls) || ls[i] == "" {
+			sb.WriteString("<end of output>\n")
+		}
+		return sb.String()
+	}
+	return where, win(wl), win(gl)
 }
 
 func pathSyntaxCase(c *fw.Ctx, d *dumper) {
@@ -475,8 +594,10 @@ func runC20(c *fw.Ctx) int {
 		return c.Finish("", nil, nil)
 	}
 	nHex, nDump := 3000, 350
+	nSoup, nDeep, nText := 3000, 140, 240
 	if c.Tier == "thorough" {
 		nHex, nDump = 200000, 12000
+		nSoup, nDeep, nText = 200000, 4000, 8000
 	}
 	// lines around and well beyond 64 KiB
 	for _, n := range []int{21845, 21846, 32767, 32768, 40000} {
@@ -490,18 +611,41 @@ func runC20(c *fw.Ctx) int {
 			c.FlushModel()
 		}
 	}
+	for i := 0; i < nSoup; i++ {
+		hexSoupCase(c)
+		if i%20000 == 19999 {
+			c.FlushModel()
+		}
+	}
+	// the smallest deep trees first, so that they are the first witnesses in a replay
+	for depth := 0; depth <= 12; depth++ {
+		ladderCase(c, d, depth, false)
+		ladderCase(c, d, depth, true)
+	}
 	for i := 0; i < nDump; i++ {
 		dumpCase(c, d)
 		if i%7 == 0 {
 			pathSyntaxCase(c, d)
 		}
 	}
+	c.FlushModel()
+	for i := 0; i < nDeep; i++ {
+		deepDumpCase(c, d)
+		if i%500 == 499 {
+			c.FlushModel()
+		}
+	}
+	for i := 0; i < nText; i++ {
+		textDumpCase(c, d)
+	}
 	if c.Tier == "thorough" {
 		c.LeanChecker("C20")
 	}
 	return c.Finish(
-		"hex: blobs of 21845..40000 bytes written on one physical line (up to 120000 characters) between short lines, alone and followed by a non-hex line; random byte strings rendered with random Unicode whitespace, upper/lower-case digits, ';' comments (containing ';', hex digits, non-ASCII), LF/CRLF line breaks between bytes and spaces between the two digits of a byte; 30% corrupted (foreign character outside a comment, odd digit count on a line, line break inside a byte); dump: protodump built from /repo and run as a sub-process (-file, redirected stdin, pipe) on random message trees of depth <= 3 (valid, truncated, bit-flipped, junk) with random subsets of the true nested/string paths plus decoy paths, in the accepted flag spellings, stdout compared with the Lean model and with an independent protowire rendering; paths: 23 legal and illegal flag spellings; non-trivial = non-empty bytes (hex) / message containing a nested or string field (dump)",
-		append(trustedCommon, "encoding/hex, unicode.IsSpace, strings.Split, strconv.Atoi as mirrored in the model (compared by correspondence)", "protowire-based reference rendering written in the harness"),
+		"hex: blobs of 21845..40000 bytes written on one physical line (up to 120000 characters) between short lines, alone and followed by a non-hex line; random byte strings rendered with random Unicode whitespace, upper/lower-case digits, ';' comments (containing ';', hex digits, non-ASCII), LF/CRLF line breaks between bytes and spaces between the two digits of a byte; 30% corrupted (one or two foreign characters drawn from all of Unicode - biased to code points whose low 8 / low 16 / low 7 bits are a hex digit, whitespace, ';' or a line feed, to digits and letters of other scripts, fullwidth forms, characters with special case folding, format and control characters - at the start of a line, between bytes, between or in place of the digits of a byte; odd digit count on a line; line break inside a byte); hexsoup: texts that are not renderings of known bytes (random sequences of digit pairs, single digits, whitespace, line breaks, comments with arbitrary content incl. bytes that are not UTF-8, foreign characters, malformed UTF-8 outside comments); every text of both streams is judged by an independent character-level reading (accept with exactly these bytes / foreign character: must fail / half a byte on a line: must fail) and compared with the Lean model (malformed UTF-8 read the way Go reads a string, Model.goRunes); dump: protodump built from /repo and run as a sub-process (-file, redirected stdin, pipe) on random message trees of depth <= 3 (valid, truncated, bit-flipped, junk) with random subsets of the true nested/string paths plus decoy paths (absent paths, and paths easily confused with present ones: prefix, extension, neighbouring tag, zero at one level, reversed, same digits split differently), in the accepted flag spellings and in any order, stdout compared with the Lean model and with an independent protowire rendering; dumpdeep: ladders (a chain of 0..12 nested messages with three to five differently treated length-delimited siblings at the bottom or at every level, everything requested) and random trees 3..17 levels deep in which every message holds at least a printable and a binary leaf, scalars and one or two nested messages in random order, repeated tags, nearly all nested paths expanded; dumptext: well-formed messages all of whose bytes belong to a text-like alphabet (hex digits in either case, with whitespace, with ';' comments; base64; base64url with line feeds; JSON-ish; decimal; printable ASCII; whitespace+digits), flat and nested, valid and truncated; paths: 23 legal and illegal flag spellings; non-trivial = non-empty bytes (hex) / text that denotes bytes or must be rejected (hexsoup) / message containing a nested or string field (dump*)",
+		append(trustedCommon, "encoding/hex, unicode.IsSpace, strings.Split, strconv.Atoi as mirrored in the model (compared by correspondence)", "protowire-based reference rendering written in the harness", "character-level reference reading of annotated hex written in the harness (utf8.DecodeRuneInString, unicode.IsSpace)"),
 		[]string{"a line break between the two digits of one byte is rejected with an error (never mis-decoded); the completeness theorem quantifies over line breaks between bytes",
-			"tag paths match exactly (as the repository's own tests pin); the doc comment's '0 = wildcard' is not implemented and not assumed"})
+			"tag paths match exactly (as the repository's own tests pin); the doc comment's '0 = wildcard' is not implemented and not assumed",
+			"whitespace = Unicode White_Space (Go's unicode.IsSpace); hex digits = the ASCII characters 0-9 A-F a-f; a byte that is not part of well-formed UTF-8 is a foreign character outside a comment and ignored inside one",
+			"protodump's input is the binary message itself, whatever its bytes look like (the property: 'for every input ... the value that a reference parser finds')"})
 }
